@@ -102,7 +102,8 @@ def generate(prop, rng):
             o = gen.weighted(rng, [(4, "user_write"), (2, "user_delete"), (1, "user_swap"), (1, "evict"), (5, "checkout")])
             if o == "user_write":
                 ops.append({"op": o, "rel": rng.choice(names + ["n1", "d/n2"]), "content": rng.randrange(len(pool)),
-                            "uncached": rng.random() < 0.6, "tag": rng.randrange(1000)})
+                            "uncached": rng.random() < 0.6, "tag": rng.randrange(1000),
+                            "leftover": rng.choice([None, None, "empty", "half"])})
             elif o == "user_delete":
                 ops.append({"op": o, "rel": rng.choice(names)})
             elif o == "user_swap":
@@ -124,7 +125,7 @@ def generate(prop, rng):
                 ops.append({"op": o, "slot": slot})
             elif o == "user_write":
                 ops.append({"op": o, "slot": slot, "rel": rng.choice(names), "tag": rng.randrange(1000),
-                            "how": rng.choice(["inplace", "replace", "new"]),
+                            "how": rng.choice(["inplace", "replace", "new", "inplace_older"]),
                             "existing": rng.random() < 0.6, "pick": rng.random()})
             elif o == "user_delete":
                 ops.append({"op": o, "slot": slot, "rel": rng.choice(names + [""])})
@@ -133,6 +134,20 @@ def generate(prop, rng):
                             "as_file": rng.random() < 0.4})
             else:
                 ops.append({"op": o, "used": [s for s in ("p0", "p1", "p2") if rng.random() < 0.4]})
+        if rng.random() < 0.4:
+            # a focused motif at the end: record a link, touch it (or not) in some way, clean up
+            slot = rng.choice(["p0", "p1", "p2"])
+            ops.append({"op": "materialise", "slot": slot, "tree": rng.randrange(ntrees), "as_file": rng.random() < 0.5})
+            if rng.random() < 0.5:
+                ops.append({"op": "save_link", "slot": slot})
+            else:
+                ops.append({"op": "checkout_rec", "slot": slot, "tree": rng.randrange(ntrees), "link": rng.choice(links),
+                            "as_file": rng.random() < 0.5})
+            if rng.random() < 0.75:
+                ops.append({"op": "user_write", "slot": slot, "rel": rng.choice(names), "tag": rng.randrange(1000),
+                            "how": rng.choice(["inplace", "replace", "inplace_older", "inplace_older"]),
+                            "existing": True, "pick": rng.random()})
+            ops.append({"op": "cleanup", "used": [s for s in ("p0", "p1", "p2") if s != slot and rng.random() < 0.4]})
     sc["ops"] = ops
     return sc
 
@@ -275,6 +290,12 @@ def _exec_c05_checkout(sc, ctx, env):
             data = env.contents[op["content"]]
             if op["uncached"]:
                 data = b"user-%d-" % op["tag"] + data
+                if op.get("leftover"):
+                    # an interrupted add of these very bytes left an unprotected, truncated file
+                    # under their id: the content is NOT recoverable from the cache
+                    env.w.raw_add("cache", env.kind, model.ref_digest("md5", data),
+                                  b"" if op["leftover"] == "empty" else data[: len(data) // 2], mode=0o644)
+                    ctx.probe("truncated_leftover_at_id_of_user_bytes")
             env.user_write(os.path.join(path, op["rel"]), data)
         elif o == "user_delete":
             env.user_delete(os.path.join(path, op["rel"]))
@@ -393,12 +414,20 @@ def _exec_c05_links(sc, ctx, env):
             else:
                 target = p
             data = b"edit-%d" % op["tag"]
-            if op["how"] == "inplace" and os.path.isfile(target) and not os.path.islink(target) and os.stat(target).st_nlink == 1:
+            if op["how"] in ("inplace", "inplace_older") and os.path.isfile(target) and not os.path.islink(target) and os.stat(target).st_nlink == 1:
                 ctx.clock.advance(2 * 10**9)
+                m0 = REAL["os.stat"](target).st_mtime_ns
                 with REAL["open"](target, "r+b") as f:
                     f.write(data)
                     f.truncate()
-                ctx.seam.stamp(target)
+                if op["how"] == "inplace_older":
+                    # the clock had stepped back, or a tool restored an OLDER timestamp (cp -p, rsync -t):
+                    # the file is modified although its mtime did not grow
+                    m1 = m0 - (1 + op["tag"]) * 10**9
+                    REAL["os.utime"](target, ns=(m1, m1))
+                    ctx.probe("modified_with_older_mtime")
+                else:
+                    ctx.seam.stamp(target)
             else:
                 if os.path.isdir(target) and not os.path.islink(target):
                     continue
